@@ -132,7 +132,7 @@ def run(pid, rep, n_cases, plies):
                 if pid == "C11":
                     q("spec_class " + fen); q("spec_render " + f4)
                 last_fen = f4
-            if name in ("pushbias", "push") and ":" in out[0] and last_fen and pid in ("C02",):
+            if name in ("pushbias", "push", "playh", "pushh") and ":" in out[0] and last_fen and pid in ("C02",):
                 q("spec_play %s %s" % (out[0].split(":")[0], last_fen))
     qlines = list(queries)
     chunk = 200
@@ -204,7 +204,7 @@ def reimport_check(rep, cases, rust, stats):
 def load_corpus(pid):
     import glob, os
     out = []
-    for p in sorted(glob.glob(os.path.join(core.VERIF, "corpus", pid, "*.case"))):
+    for p in sorted(glob.glob(os.path.join(core.VERIF, "corpus", pid, "*.case"))) + sorted(glob.glob(os.path.join(core.VERIF, "corpus", "shared", "*.case"))):
         ops = [l.rstrip("\n") for l in open(p, encoding="utf-8") if l.strip() and not l.startswith("#")]
         if ops:
             out.append(ops)
@@ -451,6 +451,40 @@ def check_c05(rep, tier):
             rep.violation("impl-vs-spec", f"changing one feature left the hash unchanged: {core.fen4(f)} -> {core.fen4(v)}", h0, replay_ops=case)
         if h1 in seen and seen[h1] != core.fen4(o[3][0].split("|")[0]):
             rep.violation("impl-vs-spec", f"two different positions share the hash {h1}", f"{seen[h1]} and {v}", replay_ops=case)
+    # two pieces of different kinds exchange squares (also a king and another piece, both colours): a different position, so
+    # a different hash — unless two (piece, square) pairs draw the same key
+    kinds12 = "KQRBNPkqrbnp"
+    sq_pairs = [((3, 2), (4, 5)), ((2, 6), (5, 1)), ((1, 3), (6, 4)), ((3, 0), (4, 7))]
+    if tier == "thorough":
+        sq_pairs += [((r.randrange(1, 7), r.randrange(8)), (r.randrange(1, 7), r.randrange(8))) for _ in range(40)]
+        sq_pairs = [p for p in sq_pairs if p[0] != p[1]]
+    sw_cases, sw_meta = [], []
+    for a in range(12):
+        for b in range(a + 1, 12):
+            for s1, s2 in sq_pairs:
+                fens2 = []
+                for x, y in ((s1, s2), (s2, s1)):
+                    rows = [[None] * 8 for _ in range(8)]
+                    rows[7 - x[0]][x[1]] = kinds12[a]
+                    rows[7 - y[0]][y[1]] = kinds12[b]
+                    # the kings the position still needs, out of the way on the edge ranks
+                    free = [(rr, cc) for rr in (0, 7) for cc in (0, 7)]
+                    if "K" not in (kinds12[a], kinds12[b]):
+                        rows[7][0] = "K"
+                    if "k" not in (kinds12[a], kinds12[b]):
+                        rows[0][7] = "k"
+                    fens2.append(compress_rows(rows) + " w - - 0 1")
+                sw_cases.append(["new " + fens2[0], "obs", "new " + fens2[1], "obs"])
+                sw_meta.append(fens2)
+    sr, _ = core.run_rust(sw_cases)
+    for fens2, o, case in zip(sw_meta, sr, sw_cases):
+        if o[0] != ["ok"] or o[2] != ["ok"] or not o[1] or not o[3]:
+            stats["swap_pairs_refused_by_reader"] += 1
+            continue
+        stats["swap_pairs"] += 1
+        if o[1][0].split("|")[1] == o[3][0].split("|")[1]:
+            rep.violation("impl-vs-spec", f"two pieces exchanging squares leave the hash unchanged: {core.fen4(fens2[0])} / {core.fen4(fens2[1])}",
+                          o[1][0].split("|")[1], replay_ops=case)
     if first and not rep.violations:
         rep.violation("model-vs-impl", "correspondence:C05:variants", f"impl {first[1]} model {first[2]}", replay_ops=first[0], no_input=True)
     return stats, cases
